@@ -17,7 +17,7 @@ import (
 
 // Fixed regression scenarios: one per boundary named in the property / defect shape of DESIGN.md
 // section 7. They are part of both tiers.
-var fixedNames = []string{"latin1-subject-37", "latin1-subject-34", "ascii-subject-128", "three-blocks-both-ways", "all-deferred", "all-rejected", "equal-sizes", "empty-both", "one-byte-body", "gzip-three-blocks", "distinguished-crc-values"}
+var fixedNames = []string{"latin1-subject-37", "latin1-subject-34", "ascii-subject-128", "three-blocks-both-ways", "all-deferred", "all-rejected", "equal-sizes", "empty-both", "one-byte-body", "gzip-three-blocks", "distinguished-crc-values", "size-field-boundaries"}
 
 func mk(mid, from, to, subject string, body []byte, files ...b2fx.FileSpec) b2fx.MsgSpec {
 	return b2fx.MsgSpec{MID: mid, From: from, To: []string{to}, Subject: subject, Body: body, Files: files, Shape: fmt.Sprintf("subject[%d] body[%d] files[%d]", len(subject), len(body), len(files))}
@@ -67,6 +67,24 @@ func fixedScenario(name string) (*b2fx.Scenario, error) {
 			sc.MsgsA = append(sc.MsgsA, mk(fmt.Sprintf("EQ%d", 9-i), A, B, "same size", []byte("identical body\r\n")))
 		}
 		sc.Seg = 1
+	case "size-field-boundaries":
+		// uncompressed sizes around the places where the decimal size fields of a proposal gain a digit (a seventh: the offset field's
+		// own limit of 999999 does not apply to sizes) or cross a power of two; compressible content keeps the transfer short
+		pat := func(n int, seed byte) []byte {
+			b := make([]byte, n)
+			for i := range b {
+				b[i] = "winlink 2000 \r\n"[(i+int(seed))%15] + seed*byte(i/4096%3)
+			}
+			return b
+		}
+		sc.MsgsA = []b2fx.MsgSpec{
+			mk("SIZE1000100", A, B, "a megabyte", []byte("see attachment\r\n"), b2fx.FileSpec{Name: "track.gpx", Data: pat(1000100, 1)}),
+			mk("SIZE0099990", A, B, "just under", pat(99800, 2)),
+		}
+		sc.MsgsB = []b2fx.MsgSpec{
+			mk("SIZE0999700", B, A, "just under a megabyte", []byte("x\r\n"), b2fx.FileSpec{Name: "a.bin", Data: pat(999700, 3)}, b2fx.FileSpec{Name: "b.bin", Data: pat(65536, 4)}),
+			mk("SIZE0100100", B, A, "six digits", pat(100100, 5)),
+		}
 	case "distinguished-crc-values":
 		// messages whose compressed stream begins with a distinguished CRC-16 value (the first two bytes of a B2
 		// payload): all zero, all ones, and the gzip magic number in either byte order - a receiver that takes
